@@ -283,6 +283,24 @@ Theorem C03_replay_block_upto_responder sc1 sc2 tA hash txs j tg tw tBw :
   gk_height tBw = gk_height tw /\ w_height tBw = w_height tw /\ cfg tBw = cfg tw.
 Proof. exact (replay_block_upto_responder sc1 sc2 tA hash txs j tg tw tBw). Qed.
 
+(* multi-block polls: the last known block is written after the listeners of ALL blocks (Gen/Bootstrap), so a kill in
+   block i has blocks 1..i-1 delivered again: the watcher's pass over a block it had COMPLETED changes nothing *)
+Theorem C03_watcher_replay_completed sc1 sc2 tA tB hash txs h tA' tB' :
+  Inv tA -> memo_coherent sc1 tA -> memo_coherent sc2 tB ->
+  r_index tB = r_index tA -> car_height tB = car_height tA ->
+  db_of tB = db_of tA' ->
+  replay_ok tA (db_of tB) txs sc1 sc2 ->
+  w_block_connected sc1 tA (cache_block hash txs) h = Ok tt tA' ->
+  w_block_connected sc2 tB (cache_block hash txs) h = Ok tt tB' ->
+  db_of tB' = db_of tA'.
+Proof. exact (watcher_replay_completed sc1 sc2 tA tB hash txs h tA' tB'). Qed.
+
+Theorem C03_lkb_written_after_all_blocks :
+  Bootstrap.POLL_PERSISTS_BETTER_TIP = true /\ Bootstrap.LAST_KNOWN_BLOCK_WRITERS = 2%nat /\
+  forall le k t blocks tip s0, (k <= length (poll_blocks le t blocks))%nat ->
+    ds_lkb (poll_crash_at le k t blocks tip s0) = ds_lkb s0.
+Proof. split; [reflexivity|]. split; [reflexivity|]. exact lkb_not_advanced_mid_poll. Qed.
+
 (* API operations.  register is one statement: a kill leaves the tables before or after it *)
 Theorem C03_register_crash_two_states le t u sc k :
   not_abort (snd (step le t (ORegister u) sc)) ->
@@ -415,3 +433,5 @@ Print Assumptions C03_register_crash_two_states.
 Print Assumptions C03_register_resubmission_refuted.
 Print Assumptions C03_add_resubmission_reply_lost.
 Print Assumptions C03_add_resubmission_in_window_refuted.
+Print Assumptions C03_watcher_replay_completed.
+Print Assumptions C03_lkb_written_after_all_blocks.
